@@ -10,7 +10,7 @@ use crate::run::{Obs, Prop, RunCfg, Verdict, Worker};
 const PREFIXES: &[&str] = &["", " ", "  ", "\t", "# ", "> ", "  # ", "\t> ", "//", "-- ", " * ", "é ", "\u{a0}", "\u{3000}|", "| \t", "x", " \u{a0} ", "\n", "a\nb", "\r", "#\u{a0}", "# \u{a0}", ">\u{3000}", "//\u{2003} ", "é\u{a0}\t"];
 
 fn gen(r: &mut Rng, _cfg: &RunCfg) -> Case {
-    let m = Mix::swarm(r, &[Class::Ascii, Class::Wide, Class::Zero, Class::Punct, Class::Space, Class::Para, Class::Prefix, Class::Dirty, Class::Scalars]);
+    let m = Mix::swarm(r, &[Class::Ascii, Class::Wide, Class::Zero, Class::Punct, Class::Space, Class::Para, Class::Prefix, Class::Dirty, Class::Scalars, Class::Real, Class::RealStyled]);
     let mut s = String::new();
     for _ in 0..r.range(0, 12) {
         match r.below(8) {
